@@ -2,6 +2,7 @@
   Lemmas/Input.lean — facts about the cursor primitives and the atoms of Model/Input.lean.
 -/
 import PegtlVerif.Model.Input
+import PegtlVerif.Lemmas.Utf
 
 namespace Pegtl
 
@@ -231,5 +232,40 @@ theorem atomStep_frame (cx : Ctx) (a : Atom) (st : St) :
     simp only [atomStep, St.avail]
     exact adv _ (st.endp - st.cur.pos) (by simp) (by simp) (by simp) (by omega) (fun hv => bump_noob _ _ _ (by omega))
   | require n => simp only [atomStep]; exact triv _
+  | utf8Range found lo hi =>
+    simp only [atomStep]
+    cases hp : Utf.peekUtf8 (windowBytes cx st) with
+    | none => exact triv _
+    | some v =>
+      obtain ⟨cp, n⟩ := v
+      simp only
+      have hsz : n ≤ st.endp - st.cur.pos := by
+        have h1 := (Utf.peek_size .utf8 trivial (windowBytes cx st) (cp : Int) n (by simp [Utf.Peek.peek, Utf.liftNat, hp])).2.2
+        have h2 : (windowBytes cx st).length ≤ st.endp - st.cur.pos := by
+          simp only [windowBytes, St.avail, List.length_take]; omega
+        omega
+      by_cases hc : (decide (lo ≤ cp ∧ cp ≤ hi) == found) = true
+      · simp only [hc, if_true]
+        exact adv _ n (by simp) (by simp) (by simp) (by omega) (fun hv => bumpHelp_noob _ _ _ _ (by omega))
+      · simp only [hc]
+        exact triv _
+  | maxDigits mx =>
+    simp only [atomStep]
+    have hsz : ((windowBytes cx st).takeWhile isDigitB).length ≤ st.endp - st.cur.pos := by
+      have h1 := (List.takeWhile_sublist (l := windowBytes cx st) isDigitB).length_le
+      have h2 : (windowBytes cx st).length ≤ st.endp - st.cur.pos := by
+        simp only [windowBytes, St.avail, List.length_take]; omega
+      omega
+    by_cases h1 : ((windowBytes cx st).takeWhile isDigitB).isEmpty = true
+    · simp only [h1, if_true]; exact triv _
+    · simp only [h1]
+      by_cases h2 : ((windowBytes cx st).takeWhile isDigitB).length > 1 ∧ ((windowBytes cx st).takeWhile isDigitB).head? = some 48
+      · simp only [h2, if_true]; exact triv _
+      · simp only [h2]
+        by_cases h3 : digitsValue ((windowBytes cx st).takeWhile isDigitB) ≤ mx
+        · simp only [h3, if_true]
+          exact adv _ ((windowBytes cx st).takeWhile isDigitB).length (by simp) (by simp) (by simp) (by omega)
+            (fun hv => bumpInThisLine_noob _ _ (by omega))
+        · simp only [h3]; exact triv _
 
 end Pegtl
